@@ -1183,6 +1183,40 @@ Proof.
     fold (nabs w' n) (nabs (sw st) n). rewrite A. reflexivity.
 Qed.
 
+(* ---- OInsTie ---- *)
+Lemma step_instie st x p ka va j : Inv st -> step_good st (OInsTie x p ka va j).
+Proof.
+  intros IV. unfold step_good. cbn [step spec_step]. rewrite sget_abs.
+  destruct (getv (svars st) x) as [c|] eqn:G; cbn [option_map]; [|exists false, st; auto].
+  destruct (inv_get st x c IV G) as (H & Hb & WF). pose proof (inv_wf _ IV) as W.
+  pose proof (marg_key_spec st ka IV) as MK. pose proof (marg_val_spec st va IV) as MV.
+  destruct c as [a|n]; cbn [cids cbks vwf abs_cont] in *.
+  - cbn [can_hint sorted]. exists false, st. auto.
+  - unfold can_hint. destruct (sorted (ckind n)) eqn:SO; [|exists false, st; auto].
+    destruct (sorted_fields _ SO) as (HK & HV & _).
+    destruct (marg_key (svars st) ka) as [rk|]; [destruct MK as [MK Lk]|]; rewrite MK; [|exists false, st; auto].
+    destruct (marg_val (svars st) va) as [rv|]; [destruct MV as [MV Lv]|]; rewrite MV; [|exists false, st; auto].
+    fold (nabs (sw st) n).
+    assert (Ek : map (val (sw st)) (sel_ids (ckind n) (citems n)) = asel (ckind n) (nabs (sw st) n)).
+    { unfold nabs. apply sel_vals. rewrite HK. reflexivity. }
+    assert (Len : length (nabs (sw st) n) = length (citems n)) by (unfold nabs; apply map_length).
+    rewrite Ek, rarg_val_rval, Len.
+    destruct (hint_tie (ckind n) (asel (ckind n) (nabs (sw st) n)) (pos_idx p (length (citems n))) (rval (sw st) rk) &&
+              ssortedb (insert_at (S (pos_idx p (length (citems n))) + j) (rval (sw st) rk) (asel (ckind n) (nabs (sw st) n))));
+      [|exists false, st; auto].
+    destruct (with_both_ok n (fun kr vr => nc_insert_tie n p kr vr j)
+                (insert_at (S (pos_idx p (length (citems n))) + j) (mk_anode (ckind n) (rval (sw st) rk) (rval (sw st) rv)) (nabs (sw st) n))
+                rk rv (sw st) W H Hb Lk Lv)
+      as (c' & w' & E & T & K & A).
+    { intros w2 i i2 W2 H2 Hb2 Ii Ij Vi Vj EN.
+      destruct (nc_insert_tie_ok n p i i2 j w2 W2 H2 Hb2 SO Ii Ij) as (c' & w4 & E & T & K & A).
+      exists c', w4. split; [exact E|]. split; [exact T|]. split; [exact K|]. rewrite A, EN, Vi, Vj. reflexivity. }
+    destruct (put_ok st x (Some (CN n)) (CN c') w' _ IV (getv_nth _ _ _ G) (lift_ok CN _ _ _ _ E) T) as (st' & E' & IV' & A').
+    { cbn [vwf]. rewrite K. exact WF. }
+    exists true, st'. split; [exact E'|]. split; [exact IV'|]. rewrite A'. cbn [abs_cont].
+    fold (nabs w' c'). rewrite K, A. reflexivity.
+Qed.
+
 (* ---- OInsVia: prepend / append(key[, value]) are OIns at the front / the back ---- *)
 Lemma step_insvia st x f ka va : Inv st -> step_good st (OInsVia x f ka va).
 Proof.
@@ -1193,6 +1227,16 @@ Proof.
   - destruct (can_insvia (ckind n) f); [|exists false, st; auto].
     pose proof (step_ins st x (via_pos f) ka va IV) as R. unfold step_good in R. cbn [step spec_step] in R.
     rewrite sget_abs, G in R. cbn [option_map abs_cont] in R. exact R.
+Qed.
+
+Lemma insvia_is_ins_proof st x n f ka va :
+  getv (svars st) x = Some (CN n) -> can_insvia (ckind n) f = true ->
+  step st (OInsVia x f ka va) = step st (OIns x (via_pos f) ka va) /\
+  spec_step (abs st) (OInsVia x f ka va) = spec_step (abs st) (OIns x (via_pos f) ka va).
+Proof.
+  intros G C. split.
+  - cbn [step]. rewrite G, C. reflexivity.
+  - cbn [spec_step]. rewrite sget_abs, G. cbn [option_map abs_cont]. rewrite C. reflexivity.
 Qed.
 
 (* ---------------------------------------------------------------------------------------- *)
@@ -1223,4 +1267,5 @@ Proof.
   - apply step_inshint; auto.
   - apply step_sort; auto.
   - apply step_insvia; auto.
+  - apply step_instie; auto.
 Qed.
